@@ -609,7 +609,7 @@ func GenTrip(rng *rand.Rand, thorough bool, emit func(*Sx)) {
 				continue
 			}
 			for _, m := range msgs {
-				for site := 0; site < 4; site++ {
+				for site := 0; site < 5; site++ {
 					n++
 					if !thorough && n%3 != 0 {
 						continue
@@ -644,6 +644,10 @@ func GenTrip(rng *rand.Rand, thorough bool, emit func(*Sx)) {
 						p.Ret = e
 						sc.Data = []DataPlan{p}
 						calls = []TripCall{{Kind: "mail", Arg: "s@x"}, {Kind: "rcpt", Arg: "r@x"}, {Kind: "data", Parts: [][]byte{[]byte("hi\r\n")}, Closes: 1}}
+					case 4:
+						// the refusal of a LATER recipient, after one was accepted (judged like site 2, third call)
+						sc.Rcpt = []BErr{BNil, e}
+						calls = []TripCall{{Kind: "mail", Arg: "s@x"}, {Kind: "rcpt", Arg: "r@x"}, {Kind: "rcpt", Arg: "r2@x"}}
 					}
 					calls = append(calls, TripCall{Kind: "quit"})
 					emit(RunTrip(TripCase{Cfg: cfg, Script: sc, Calls: calls, Extra: []*Sx{L(A("focus"), A("C17")), L(A("site"), Num(int64(site))), L(A("err"), e.Sx())}}))
